@@ -457,7 +457,7 @@ structure WF (m : M) : Prop where
   waiting : ∀ fr ∈ m.stack.tail, fr.cur.isSome = true
   pendcur : m.pend.isSome = true → ∀ fr ∈ m.stack.head?, fr.cur.isSome = true
 
-theorem WF.init (srcs : Nat → Src) (ops : List SAct) : WF (M.init srcs ops) := by
+theorem WF.init (v : Variant) (srcs : Nat → Src) (ops : List SAct) : WF (M.init v srcs ops) := by
   constructor <;> simp [M.init, callsOf, retsOf]
 
 /-- the log grew by events that do not concern delivery `f` -/
@@ -936,6 +936,21 @@ theorem exec_sync {m : M} (h : Sync m.srcs) (sa : SAct) (g : Bool) : Sync (exec 
   | dropOwner o => exact hother
   | count => exact hother
 
+/-- what `abort` does to the sources: nothing, or (D60 repaired, one-shot handler raised) the loop's removal -/
+theorem abort_srcs (m : M) (fr : Frame) (st : List Frame) (k : Exc) :
+    (abort m fr st k).srcs = m.srcs ∨ ∃ x, (abort m fr st k).srcs = updSrc m.srcs fr.src (rmEidAll (m.srcs fr.src) x) := by
+  simp only [abort]
+  split
+  · split
+    · exact .inr ⟨_, rfl⟩
+    · exact .inl rfl
+  · exact .inl rfl
+
+theorem abort_sync {m : M} (h : Sync m.srcs) (fr : Frame) (st : List Frame) (k : Exc) : Sync (abort m fr st k).srcs := by
+  rcases abort_srcs m fr st k with h1 | ⟨x, h1⟩ <;> rw [h1]
+  · exact h
+  · exact updSrc_sync h _ _ (rmEidAll_nextEid _ _)
+
 theorem hret_sync {m : M} (h : Sync m.srcs) (fr : Frame) (st : List Frame) (e : Entry) (r : Ret) : Sync (hret m fr st e r).srcs := by
   have : Sync (updSrc m.srcs fr.src
       (if r.removes then rmEidAll (if e.once then rmEidAll (m.srcs fr.src) e.eid else m.srcs fr.src) e.eid
@@ -947,7 +962,9 @@ theorem hret_sync {m : M} (h : Sync m.srcs) (fr : Frame) (st : List Frame) (e : 
 theorem step_sync (β : Beh) {m : M} (h : Sync m.srcs) : Sync (step β m).srcs := by
   unfold step
   split
-  · split <;> simpa [abort] using h
+  · split
+    · exact abort_sync (m := { m with pend := none, log := _ }) h _ _ _
+    · exact h
   · split
     · split
       · exact h
@@ -955,7 +972,7 @@ theorem step_sync (β : Beh) {m : M} (h : Sync m.srcs) : Sync (step β m).srcs :
     · rename_i fr st hs
       split
       · refine exec_sync (m := _) ?_ _ _; exact h
-      · simpa [abort] using h
+      · exact abort_sync h _ _ _
       · exact hret_sync h _ _ _ _
       · split <;> simpa [finish] using h
 
@@ -999,7 +1016,20 @@ theorem step_src {P : Src → Prop} (hP : SrcClosed P) {β : Beh} {m m' : M} (hs
         split; exact hP.2.1 _ _ h1; exact h1
       · exact hs
     exact key
-  | _ => simpa [abort, finish] using hs
+  | deliverAbort k fr st hp hs' =>
+    rcases abort_srcs { m with pend := none, log := m.log ++ [.res (.exc k)] } fr st k with h1 | ⟨x, h1⟩ <;> rw [h1]
+    · exact hs
+    · show P (updSrc m.srcs fr.src (rmEidAll (m.srcs fr.src) x) j)
+      unfold updSrc; split
+      · rename_i hj; subst hj; exact hP.2.1 _ _ hs
+      · exact hs
+  | hAbort fr st e k hp hs' hc =>
+    rcases abort_srcs m fr st k with h1 | ⟨x, h1⟩ <;> rw [h1]
+    · exact hs
+    · unfold updSrc; split
+      · rename_i hj; subst hj; exact hP.2.1 _ _ hs
+      · exact hs
+  | _ => simpa [finish] using hs
 
 theorem srcInv_closed : SrcClosed SrcInv :=
   ⟨fun _ a h => h.doAction a, fun _ x h => h.rmEidAll x,
@@ -1017,9 +1047,9 @@ structure MInv (m : M) : Prop where
   src : ∀ i, SrcInv (m.srcs i)
   snaps : ∀ fr ∈ m.stack, Sorted fr.snap ∧ Uniq fr.snap ∧ ∀ e ∈ fr.snap, e.eid ≤ (m.srcs fr.src).nextEid
 
-theorem MInv.init (srcs : Nat → Src) (hs : ∀ i, SrcInv (srcs i)) (hsync : Sync srcs) (ops : List SAct) :
-    MInv (M.init srcs ops) :=
-  ⟨WF.init srcs ops, hsync, hs, by simp [M.init]⟩
+theorem MInv.init (v : Variant) (srcs : Nat → Src) (hs : ∀ i, SrcInv (srcs i)) (hsync : Sync srcs) (ops : List SAct) :
+    MInv (M.init v srcs ops) :=
+  ⟨WF.init v srcs ops, hsync, hs, by simp [M.init]⟩
 
 theorem MInv.step' {β : Beh} {m : M} (hi : MInv m) : MInv (step β m) := by
   have h := step_rel β m
@@ -1275,7 +1305,7 @@ theorem abort_good {m : M} {fr : Frame} {st : List Frame} {k : Exc} (h : GoodLog
   · split at hev
     · simp at hev; subst hev; trivial
     · cases hev
-  · cases hn : fr.noErr <;> cases k <;> simp [NoErrOK]
+  · cases hn : fr.noErr <;> cases k <;> cases m.v.noErrAll <;> simp [NoErrOK]
 
 theorem GoodLog.snoc {log : List Ev} (h : GoodLog log) {ev : Ev} (hev : NoErrOK ev) : GoodLog (log ++ [ev]) := by
   intro x hx
@@ -1385,5 +1415,106 @@ theorem inited_closed : SrcClosed (fun s => s.inited = true) := by
     | count => simp only [doAction]; split <;> exact h
     | raise et form noErr => rfl
   · intro s x h; show (removeWhere s _ none).1.inited = true; rw [(removeWhere_fields _ _ _).2.2.2.2]; exact h
+
+/-! ### the two repair variants -/
+
+theorem exec_v (m : M) (sa : SAct) (g : Bool) : (exec m sa g).v = m.v := by
+  obtain ⟨i, a⟩ := sa
+  cases a with
+  | raise et form noErr =>
+    simp only [exec]
+    cases form with
+    | inst => simp only; split <;> simp [push]
+    | cls => simp only; split <;> (try split) <;> simp [push]
+  | _ => rfl
+
+theorem step_v (β : Beh) (m : M) : (step β m).v = m.v := by
+  unfold step
+  split
+  · split <;> simp [abort]
+  · split
+    · split
+      · rfl
+      · rw [exec_v]
+    · split
+      · rw [exec_v]
+      · simp [abort]
+      · simp only [hret]; split <;> simp [finish]
+      · split <;> simp [finish]
+
+theorem run_v (β : Beh) (n : Nat) (m : M) : (run β n m).v = m.v := by
+  induction n generalizing m with
+  | zero => rfl
+  | succ n ih => rw [run, ih, step_v]
+
+/-- with D24 repaired: no `raiseEventNoErrors` delivery ends in an exception at all -/
+def StrictOK : Ev → Prop
+  | .endf _ true (.exc _) => False
+  | _ => True
+
+def StrictLog (log : List Ev) : Prop := ∀ ev ∈ log, StrictOK ev
+
+theorem StrictLog.snoc {log : List Ev} (h : StrictLog log) {ev : Ev} (hev : StrictOK ev) : StrictLog (log ++ [ev]) := by
+  intro x hx
+  rcases List.mem_append.mp hx with hx | hx
+  · exact h x hx
+  · simp at hx; subst hx; exact hev
+
+theorem abort_strict {m : M} {fr : Frame} {st : List Frame} {k : Exc} (hv : m.v.noErrAll = true) (h : StrictLog m.log) :
+    StrictLog (abort m fr st k).log := by
+  intro ev hev
+  simp only [abort, List.mem_append, List.mem_singleton] at hev
+  rcases hev with (hev | hev) | rfl
+  · exact h ev hev
+  · split at hev
+    · simp at hev; subst hev; trivial
+    · cases hev
+  · cases hn : fr.noErr <;> simp [StrictOK, hv]
+
+theorem StrictLog.step {β : Beh} {m m' : M} (hv : m.v.noErrAll = true) (h : Step β m m') (hg : StrictLog m.log) :
+    StrictLog m'.log := by
+  have hexec : ∀ {m1 : M} {g : Bool}, ExecR m1 g m' → m1.log = m.log → StrictLog m'.log := by
+    intro m1 g he hl
+    cases he with
+    | quiet srcs' r n hn' hs => rw [← hl] at hg; exact hg
+    | enter i et noErr hd => simp only [push, hl]; exact hg.snoc trivial
+  cases h with
+  | deliverAbort k fr st hp hs =>
+    exact abort_strict (m := { m with pend := none, log := m.log ++ [.res (.exc k)] }) hv (hg.snoc trivial)
+  | deliver r g hp => exact hg.snoc trivial
+  | idle => exact hg
+  | topExec a as m' hp hs he => exact hexec he rfl
+  | hExec fr st e a g acts r m' hp hs hc he => exact hexec he rfl
+  | hAbort fr st e k hp hs hc => exact abort_strict hv hg
+  | hRet fr st e r hp hs hc hr =>
+    simp only [hret]; split
+    · exact (hg.snoc (ev := .ret fr.fid e r fr.halt) trivial).snoc (ev := .endf fr.fid fr.noErr (.ok (.event true))) (by cases fr.noErr <;> trivial)
+    · exact hg.snoc trivial
+  | fFinish fr st hp hs hc hr => exact hg.snoc (ev := .endf fr.fid fr.noErr (.ok (.event fr.halt))) (by cases fr.noErr <;> trivial)
+  | fInvoke fr st e rest hp hs hc hr => exact hg.snoc trivial
+
+theorem StrictLog.run {β : Beh} {m : M} (hv : m.v.noErrAll = true) (hg : StrictLog m.log) (n : Nat) : StrictLog (run β n m).log := by
+  induction n generalizing m with
+  | zero => exact hg
+  | succ n ih => exact ih (by rw [step_v]; exact hv) (hg.step hv (step_rel β m))
+
+/-- with D60 repaired: the moment a one-shot handler raises, its subscription is gone for good -/
+theorem later_of_abort {m : M} {fr : Frame} {st : List Frame} {e : Entry} {acts : List (SAct × Bool)} {r : Ret} {k : Exc}
+    (hv : m.v.onceFinally = true) (hc : fr.cur = some (e, acts, r)) (ho : e.once = true)
+    (hle : e.eid ≤ (m.srcs fr.src).nextEid) (hlt : ∀ x ∈ st, x.fid < m.nextFid)
+    (hnocall : ∀ f, m.nextFid ≤ f → ∀ y, Ev.call f fr.src y ∈ m.log → False) :
+    Later e.eid fr.src m.nextFid (abort m fr st k) := by
+  refine ⟨?_, by simp [abort], ?_, ?_⟩
+  · simp only [abort, hc, hv, ho, Bool.and_self, if_true, updSrc_self]
+    exact rmEidAll_absent _ _ hle
+  · intro x hx _ hf
+    simp only [abort] at hx
+    have := hlt x hx; omega
+  · intro f hf y hy
+    simp only [abort, hc, List.mem_append, List.mem_cons, List.not_mem_nil, or_false] at hy
+    rcases hy with (hy | hy) | hy
+    · exact (hnocall f hf y hy).elim
+    · cases hy
+    · cases hy
 
 end Pox.Revent
